@@ -13,6 +13,7 @@ import Proofs.Lemmas.InprocTlrSrv
 import Proofs.Lemmas.InprocHdrSrv
 import Proofs.Lemmas.InprocUnaryAll
 import Proofs.Lemmas.HttpServerStream
+import Proofs.Lemmas.HttpUnary
 
 namespace Metadata
 
@@ -266,3 +267,31 @@ example : (run (init true [.data 7 true]) [.recv, .setHeader 1, .send 9 true, .s
     some [.head [1], .data 9, .trailer 5 [3, 4]] := by decide
 
 end HttpServerStream
+
+namespace HttpUnary
+open InprocStream (HErr Reason Res codeOf)
+
+/-- **Unary calls over HTTP deliver all metadata, on success and on failure alike**: for every handler
+    program (any mix of SetHeader / SendHeader / SetTrailer) and every outcome (a response, a response
+    that cannot be marshalled, any error), the caller's `grpc.Header` target ends up with exactly the
+    metadata of the calls that returned nil and the `grpc.Trailer` target with every SetTrailer
+    metadata, in call order. -/
+theorem C03_http_unary_metadata (ops : List HOp) (ret : Ret) (ctxDone : Bool) :
+    (client (serve ops ret ctxDone).1).hdr = okHdr ops (serve ops ret ctxDone).2 ∧
+    (client (serve ops ret ctxDone).1).tlr = trailersSet ops := by
+  have h := runOps_facts ops {}
+  simp only [List.nil_append] at h
+  unfold serve client
+  cases ret with
+  | err e => simpa using h
+  | resp m enc => cases enc <;> simpa using h
+
+/-- SetHeader / SendHeader after SendHeader fail and change nothing -/
+theorem C03_http_unary_set_header_after_send_fails (s : Sts) (md : Nat) (h : s.hdrsSent = true) :
+    hstep s (.setHeader md) = (s, .plainErr) ∧ hstep s (.sendHeader md) = (s, .plainErr) := by
+  simp [hstep, h]
+
+example : client (serve [.setHeader 1, .sendHeader 2, .setHeader 3, .setTrailer 4] (.err (.status 5)) false).1 =
+    { result := .status 5, hdr := [1, 2], tlr := [4] } := by decide
+
+end HttpUnary
